@@ -49,7 +49,7 @@ def g_scenario(r, prof, big=False):
             mid += 1
         for _ in range(r.choice([1, 1, 2, 3, 5, 12])):
             msgs.append(gv.g_message(r, prof, op=r.choice(["SearchRequest", "ExtendedRequest"]), mid=mid))
-            mid += r.choice([1, 1, 2, 1000])
+            mid += r.choice([1, 1, 2, 1000, 1, 0])  # 0: a client that numbers two requests alike (well-formed messages all the same)
         return {"role": role, "setup": [], "msgs": msgs}
     # client
     if r.random() < 0.2:
